@@ -45,6 +45,10 @@ func isErrorStore(in ssa.Instruction) (ssa.Value, bool) {
 	if !ok || fr.Struct != "Call" || fr.Field != "Error" {
 		return nil, false
 	}
+	// clearing the field (part of resetting an object that is being retired) reports nothing
+	if nilConst(s.Val) {
+		return nil, false
+	}
 	return base, true
 }
 
